@@ -16,6 +16,7 @@ FLOATS = ('float16', 'float32', 'float64')
 COMPLEX = ('complex64', 'complex128')
 INTS = ('int32', 'int64')
 DEFAULT_FLOAT = 'float32'
+TRACK_NARROWING = False    # set per scenario instance: model double -> float32 narrowing of scalars by the uninterpreted rounding R32
 
 
 class PyRaise(Exception):
@@ -494,7 +495,18 @@ def from_data(data, dtype=None):
         raise OutOfSubset('complex data with a real dtype')
     axes = [Axis(s) for s in shp]
 
+    narrow = TRACK_NARROWING and dtype in ('float32', 'complex64')
+
     def sv(v):
+        if narrow and not isinstance(v, STensor):
+            # a double precision python / numpy scalar stored in a single precision tensor is rounded
+            if isinstance(v, float):
+                import struct
+                if struct.unpack('f', struct.pack('f', v))[0] != v:
+                    return terms.R32(to_real(v))
+            elif (isinstance(v, SymScalar) and v.kind == 'float' and getattr(v, 'pytype', None) in (None, 'float', 'np.float64')) or \
+                    (is_sym(v) and v.sort() == z3.RealSort()):
+                return terms.R32(v.real() if isinstance(v, SymScalar) else v)
         if isinstance(v, SymScalar):
             return v.real()
         if isinstance(v, STensor):
@@ -1046,6 +1058,9 @@ def setitem(t, index, value):
         index = (index,)
     # build the view selected by index and compare indices
     n = t.ndim
+    if sum(1 for i in index if i is Ellipsis) == 1:
+        k_ = [j for j, i in enumerate(index) if i is Ellipsis][0]
+        index = tuple(index[:k_]) + (slice(None),) * (n - (len(index) - 1)) + tuple(index[k_ + 1:])
     if any(i is None or i is Ellipsis or isinstance(i, STensor) for i in index):
         raise OutOfSubset('setitem with None/Ellipsis/tensor index')
     index = list(index) + [slice(None)] * (n - len(index))
